@@ -196,9 +196,9 @@ class NICObservation(AbstractObservation, discriminator="network-interface"):
                         for port in self.monitored_traffic[protocol]:
                             obs["TRAFFIC"][protocol][port] = {"inbound": 0, "outbound": 0}
 
-        if self.capture_nmne and self.include_nmne:
+        if self.include_nmne:
             obs.update({"NMNE": {}})
-            direction_dict = nic_state["nmne"].get("direction", {})
+            direction_dict = nic_state.get("nmne", {}).get("direction", {})
             inbound_keywords = direction_dict.get("inbound", {}).get("keywords", {})
             inbound_count = inbound_keywords.get("*", 0)
             outbound_keywords = direction_dict.get("outbound", {}).get("keywords", {})
